@@ -367,15 +367,15 @@ func (w *Writer) write(opt *option) {
 
 	var textList []string
 	line := opt.nodes[0].End().Line
-	for idx, node := range opt.nodes {
-		mode := opt.mode
-		preIdx := idx - 1
-		var preNodeHasLeading bool
-		if preIdx > -1 && preIdx < len(opt.nodes) {
-			preNode := opt.nodes[preIdx]
-			preNodeHasLeading = preNode.HasLeadingCommentGroup()
+	var preNode Node // the last node that was written
+	for _, node := range opt.nodes {
+		// a node that formats to nothing is not written: it must not influence the layout either
+		if util.TrimWhiteSpace(node.Format()) == "" {
+			continue
 		}
-		if node.HasHeadCommentGroup() || preNodeHasLeading {
+
+		mode := opt.mode
+		if node.HasHeadCommentGroup() || (preNode != nil && preNode.HasLeadingCommentGroup()) {
 			mode = ModeAuto
 		}
 
@@ -383,11 +383,8 @@ func (w *Writer) write(opt *option) {
 			textList = append(textList, NewLine)
 		}
 		line = node.End().Line
-		if util.TrimWhiteSpace(node.Format()) == "" {
-			continue
-		}
-
 		textList = append(textList, node.Format(opt.prefix))
+		preNode = node
 	}
 
 	text := strings.Join(textList, opt.infix)
